@@ -62,13 +62,14 @@ type xTable struct {
 }
 
 type xBlock struct {
-	kind  int
-	level int  // heading level (1..) / list level (0..)
-	loose bool // kind and level are not demanded (style / numbering part deliberately absent)
-	list  int  // list identity of an item (DOCX numId / ODT list instance)
-	atoms []atom
-	tbl   *xTable
-	feat  string // block feature for signatures ("" = plain)
+	kind    int
+	level   int  // heading level (1..) / list level (0..)
+	loose   bool // kind and level are not demanded (style / numbering part deliberately absent)
+	list    int  // list identity of an item (DOCX logical list / ODT list instance)
+	ordered bool // the item belongs to a numbered list (else bullet)
+	atoms   []atom
+	tbl     *xTable
+	feat    string // block feature for signatures ("" = plain)
 
 	letter string   // alphabet letter that produced the block
 	feats  []string // has= tags of that letter
@@ -300,15 +301,37 @@ func checkFlat(x *expect, toks []tokRef, s string, cellSep string, v *verdicts) 
 	return pos
 }
 
+var reLabel = regexp.MustCompile(`^[0-9A-Za-z]+[.)]$`)
+
 func checkText(x *expect, toks []tokRef, s string) *verdicts {
 	v := newVerdicts(x)
-	checkFlat(x, toks, s, "", v)
+	pos := checkFlat(x, toks, s, "", v)
+	// list kind: a numbered item is introduced by a number / letter label, a bullet item is not
+	first := firstLocated(toks, func(i int) bool { return pos[i] >= 0 })
+	for bi, b := range x.blocks {
+		ti, ok := first[bi]
+		if b.kind != kItem || b.loose || !ok || v.blk[bi] != nil {
+			continue
+		}
+		ls := strings.LastIndex(s[:pos[ti]], "\n") + 1
+		prefix := strings.TrimSpace(s[ls:pos[ti]])
+		if reLabel.MatchString(prefix) != b.ordered {
+			v.set(bi, failf("text-list-kind:"+featOr(b.feat, "plain"), "block %d: %s list item is introduced by %q", bi+1, kindOfList(b.ordered), prefix))
+		}
+	}
 	return v
+}
+
+func kindOfList(ordered bool) string {
+	if ordered {
+		return "numbered"
+	}
+	return "bullet"
 }
 
 var (
 	reHeading = regexp.MustCompile(`^(#{1,6}) +\S`)
-	reItem    = regexp.MustCompile(`^( *)(?:[-*+]|\d+[.)]) +\S`)
+	reItem    = regexp.MustCompile(`^( *)([-*+]|\d+[.)]) +\S`)
 	reSepCell = regexp.MustCompile(`^:?-+:?$`)
 )
 
@@ -430,7 +453,11 @@ func checkMarkdown(x *expect, toks []tokRef, md string) *verdicts {
 				v.set(bi, failf("md-heading-level:"+bf, "block %d: heading level %d rendered with %d '#': %q", bi+1, b.level, n, line))
 			}
 		case kItem:
-			run = append(run, itemObs{bi, len(reItem.FindStringSubmatch(line)[1])})
+			sm := reItem.FindStringSubmatch(line)
+			if numbered := sm[2][0] >= '0' && sm[2][0] <= '9'; numbered != b.ordered {
+				v.set(bi, failf("md-list-kind:"+bf, "block %d: %s list item is rendered with the marker %q: %q", bi+1, kindOfList(b.ordered), sm[2], line))
+			}
+			run = append(run, itemObs{bi, len(sm[1])})
 		case kTable:
 			// the table region: contiguous '|' lines around the first token's line
 			lo, hi := ln, ln
@@ -485,10 +512,11 @@ func checkMarkdown(x *expect, toks []tokRef, md string) *verdicts {
 // ---- document model view ----------------------------------------------------------------------
 
 type unit struct {
-	kind  int
-	level int
-	text  string
-	tbl   *model.Table
+	kind    int
+	level   int
+	text    string
+	tbl     *model.Table
+	ordered bool // items: model.List.Ordered of the containing list
 }
 
 type dloc struct{ unit, r, c, off int }
@@ -517,7 +545,7 @@ func docUnits(doc *model.Document) []unit {
 				us = append(us, unit{kind: kHeading, level: e.Level, text: e.Text})
 			case *model.List:
 				for _, it := range e.Items {
-					us = append(us, unit{kind: kItem, level: it.Level, text: it.Text})
+					us = append(us, unit{kind: kItem, level: it.Level, text: it.Text, ordered: e.Ordered})
 				}
 			case *model.Table:
 				us = append(us, unit{kind: kTable, tbl: e})
@@ -646,6 +674,9 @@ func checkDoc(x *expect, toks []tokRef, doc *model.Document) *verdicts {
 			if u.level != b.level {
 				v.set(bi, failf("doc-list-level:"+bf, "block %d: list level %d in the source, %d in the document model", bi+1, b.level, u.level))
 			}
+			if u.ordered != b.ordered {
+				v.set(bi, failf("doc-list-kind:"+bf, "block %d: %s list item is in a model.List with Ordered=%v", bi+1, kindOfList(b.ordered), u.ordered))
+			}
 		case kTable:
 			t := u.tbl
 			if len(t.Rows) != b.tbl.rows {
@@ -684,6 +715,103 @@ func checkDoc(x *expect, toks []tokRef, doc *model.Document) *verdicts {
 		}
 	}
 	return v
+}
+
+// ---- reader Lists() view ----------------------------------------------------------------------
+
+type obsItem struct {
+	text  string
+	level int
+}
+
+type obsList struct {
+	ordered bool
+	items   []obsItem
+}
+
+// checkLists compares docx/odt Reader.Lists() with the authored list items: every item once, in
+// order, with its level and list kind; paragraphs and headings are not list items.
+func checkLists(x *expect, toks []tokRef, ls []obsList) *verdicts {
+	v := newVerdicts(x)
+	type lloc struct{ l, i, off int }
+	loc := make([]lloc, len(toks))
+	found := make([]bool, len(toks))
+	for ti, t := range toks {
+		n := 0
+		for li, l := range ls {
+			for ii, it := range l.items {
+				if k := strings.Count(it.text, t.s); k > 0 {
+					if n == 0 {
+						loc[ti] = lloc{li, ii, strings.Index(it.text, t.s)}
+					}
+					n += k
+				}
+			}
+		}
+		b := x.blocks[t.blk]
+		switch {
+		case b.kind == kTable || b.loose:
+		case b.kind != kItem:
+			if n > 0 {
+				v.set(t.blk, failf(fmt.Sprintf("lists-kind:%s-as-item:%s", kindName[b.kind], featOr(b.feat, "plain")), "block %d (%s): token %s is reported as a list item by Lists()", t.blk+1, kindName[b.kind], t.s))
+			}
+		case n == 0:
+			v.set(t.blk, failf("lost-token:"+featOr(t.feat, "plain"), "token %s (block %d) is missing from Lists()", t.s, t.blk+1))
+		case n > 1:
+			v.set(t.blk, failf("dup-token:"+featOr(t.feat, "plain"), "token %s (block %d) occurs %d times in Lists()", t.s, t.blk+1, n))
+		default:
+			found[ti] = true
+		}
+	}
+	prev := -1
+	for i := range toks {
+		if !found[i] {
+			continue
+		}
+		if prev >= 0 {
+			a, b := loc[prev], loc[i]
+			if b.l < a.l || (b.l == a.l && (b.i < a.i || (b.i == a.i && b.off < a.off))) {
+				orderFailure(x, v, toks[prev], toks[i])
+			} else if toks[prev].blk == toks[i].blk && (a.l != b.l || a.i != b.i) {
+				v.set(toks[i].blk, failf("lists-split:"+featOr(toks[i].feat, "plain"), "%s and %s belong to one list item (block %d) but are in different items", toks[prev].s, toks[i].s, toks[i].blk+1))
+			} else if toks[prev].blk != toks[i].blk && a.l == b.l && a.i == b.i {
+				v.set(toks[i].blk, failf("lists-items-merged", "%s (block %d) and %s (block %d) are in the same list item", toks[prev].s, toks[prev].blk+1, toks[i].s, toks[i].blk+1))
+			} else if prev == i-1 && toks[prev].blk == toks[i].blk {
+				txt := ls[b.l].items[b.i].text
+				if f := gapFailure(toks[i], txt[a.off+len(toks[prev].s):b.off], false, ""); f != nil {
+					v.set(toks[i].blk, f)
+				}
+			}
+		}
+		prev = i
+	}
+	first := firstLocated(toks, func(i int) bool { return found[i] })
+	for bi, b := range x.blocks {
+		ti, ok := first[bi]
+		if !ok || v.blk[bi] != nil {
+			continue
+		}
+		bf := featOr(b.feat, "plain")
+		l := ls[loc[ti].l]
+		if it := l.items[loc[ti].i]; it.level != b.level {
+			v.set(bi, failf("lists-level:"+bf, "block %d: list level %d in the source, %d in Lists()", bi+1, b.level, it.level))
+		}
+		if l.ordered != b.ordered {
+			v.set(bi, failf("lists-kind:"+bf, "block %d: %s list item is in a list of Lists() with ordered=%v", bi+1, kindOfList(b.ordered), l.ordered))
+		}
+	}
+	return v
+}
+
+func dumpLists(ls []obsList) string {
+	var b strings.Builder
+	for i, l := range ls {
+		fmt.Fprintf(&b, "list %d ordered=%v\n", i, l.ordered)
+		for _, it := range l.items {
+			fmt.Fprintf(&b, "  level=%d %q\n", it.level, it.text)
+		}
+	}
+	return b.String()
 }
 
 func dumpTable(t *model.Table) string {
